@@ -110,6 +110,15 @@ def gen_case(rng, model_key=None, loss=None, force=None):
         ts = [md["states"][i] for i in rng.permutation(nS)[:k]]
     n = int(rng.integers(4, 8))
     t = np.round(np.linspace(md["T"] / n, md["T"], n) + rng.uniform(-0.05, 0.05, n), 3)
+    t0, t_int = 0.0, False
+    if rng.random() < 0.25:
+        # a fractional initial time; and, when the horizon allows, an integer-typed observation grid
+        t0 = float(rng.choice([0.5, 0.25]))
+        if md["T"] >= 4:
+            ints = np.unique(np.rint(np.linspace(1, np.floor(md["T"]), n)).astype(int))
+            if len(ints) >= 3:
+                t, n, t_int = ints.astype(float), len(ints), True
+        t = np.array([v for v in t if v > t0 + 1e-6]); n = len(t)
     # evaluation point: away from the parameters that generated the data
     theta = [round(float(v * rng.uniform(0.85, 1.15)), 4) for v in md["theta"]]
     x0 = [round(float(v * rng.uniform(0.93, 1.07)), 4) for v in md["x0"]]
@@ -143,7 +152,8 @@ def gen_case(rng, model_key=None, loss=None, force=None):
     if rng.random() < 0.35:
         method = str(rng.choice(["lsoda", "vode", "dopri5", "dop853"]))
     c = dict(model=model_key, md=md, loss=loss, obs=obs, target_param=tp, target_state=ts, iv=iv,
-             t=t.tolist(), y=y.tolist(), theta=theta, x0=x0, weights=weights, spread=spread, method=method)
+             t=t.tolist(), y=y.tolist(), theta=theta, x0=x0, weights=weights, spread=spread, method=method,
+             t0=t0, t_int=t_int)
     c.update(force)
     return c
 
@@ -164,7 +174,8 @@ def make_loss(c, m=None):
     if y.shape[1] == 1 and c.get("y_flat", True):
         y = y[:, 0]
     obs = c["obs"] if len(c["obs"]) > 1 or c.get("obs_as_list", False) else c["obs"][0]
-    obj = cls(th, m, list(c["x0"]), 0.0, np.array(c["t"]), y, obs, **kw)
+    tarr = np.array([int(v) for v in c["t"]], dtype=int) if c.get("t_int") else np.array(c["t"])
+    obj = cls(th, m, list(c["x0"]), float(c.get("t0", 0.0)), tarr, y, obs, **kw)
     return obj, list(th)
 
 
@@ -240,6 +251,8 @@ def perm_to_declaration(c):
 
 def classify(c, call, got, want):
     md = c["md"]
+    if c.get("t_int") and float(c.get("t0", 0.0)) != int(c.get("t0", 0.0)):
+        return "integer-grid-truncates-t0"
     sidx = [md["states"].index(s) for s in c["obs"]]
     states_sorted = sidx == sorted(sidx)
     tp = c["target_param"]
@@ -368,5 +381,14 @@ def worker(cs):
         try:
             res.append(eval_case(c))
         except Exception as e:      # noqa: B902
-            res.append(([("harness-error", "%s: %s" % (type(e).__name__, e))], dict(max_err=0.0, calls=0, skipped="harness error")))
+            import traceback
+            frames = traceback.extract_tb(e.__traceback__)
+            inside = bool(frames) and ("/pygom/" in frames[-1].filename.replace("\\", "/"))
+            if inside:
+                # the exception was raised by pygom itself on an input inside the property's domain
+                res.append(([("pygom-raises", "%s raised inside pygom (%s:%d) on %s: %s" % (type(e).__name__,
+                              frames[-1].filename.split("/pygom/")[-1], frames[-1].lineno, describe(c), str(e)[:120]))],
+                            dict(max_err=0.0, calls=0, skipped=None)))
+            else:
+                res.append(([("harness-error", "%s: %s" % (type(e).__name__, e))], dict(max_err=0.0, calls=0, skipped="harness error")))
     return res
